@@ -223,6 +223,45 @@ class Tracer(object):
                 for i, a in enumerate(self.eng.call_args(body, bb)):
                     cenv[('param', callee.key, i + 1)] = self._sub(a, env, site)
                 out.extend(self.trace(callee, cenv, site + ((body.key, bb),), here_loops, must and is_must(), depth + 1))
+        return self._unroll_literal_loops(body, env, site, out)
+
+    def _unroll_literal_loops(self, body, env, site, out):
+        """a loop over a literal array of k items (`for (label, point) in &[(b"L", l), (b"R", r)] { append(label, point) }`) is the
+        k-fold repetition of its body, item by item: its events are replaced by one copy per item with the element substituted, and no
+        longer count as being inside a loop"""
+        ctx = self.ctx
+        for h, lp in sorted(ctx.loops(body).items()):
+            marker = ('L', body.key, h)
+            idxs = [i for i, e in enumerate(out) if marker in e.loops]
+            if not idxs or lp.iter_term is None:
+                continue
+            it = self._sub(lp.iter_term, env, site)
+            base = it
+            while base.tag in ('mut', 'adapt', 'via'):
+                if base.tag == 'mut':
+                    base = base[1]
+                elif base.tag == 'adapt' and base[1] in ('iter', 'into_iter', 'by_ref', 'iter_mut', 'copied', 'cloned') and len(base.args) >= 3:
+                    base = base[2]
+                else:
+                    break
+            if base.tag != 'array' or not base.args or len(base.args) > 8 or not lp.driver_only_exit:
+                continue
+            if idxs != list(range(idxs[0], idxs[-1] + 1)):
+                continue            # not one contiguous run
+            from .terms import mk_elem
+            els = [mk_elem(self.eng, it), T('elem', base), T('elem', it)]
+            run = out[idxs[0]:idxs[-1] + 1]
+            new = []
+            for item in base.args:
+                for e in run:
+                    args = e.args
+                    for el in els:
+                        args = tuple(self.eng.subst_term(a, el, item) for a in args)
+                    loops2 = tuple(x for x in e.loops if x != marker)
+                    every = ctx.every_iteration(body, lp, e.bb) if e.body is body else e.must
+                    hdr_must = self.must_block(body, lp.header) if lp.header in ctx.cfgof(body).loop_of else True
+                    new.append(Event(e.kind, args, e.site, loops2, bool(every) and bool(hdr_must), e.body, e.bb, e.result, conds=e.conds))
+            out = out[:idxs[0]] + new + out[idxs[-1] + 1:]
         return out
 
 
